@@ -24,7 +24,8 @@ RULE = ("case = (file of n in 1..10 records, position k in 1..n, fault kind, blo
         "TLV, trailing byte. distinct = distinct (file digest, k, fault kind); non-trivial = the fault changed record k")
 COMPONENTS = {
     "real": ["cardutil.mciipm.IpmReader", "cardutil.mciipm.VbsReader", "cardutil.mciipm.Unblock1014",
-             "cardutil.mciipm.IpmWriter (clean files)", "cardutil.iso8583.loads", "cardutil.cli.print_exception_details"],
+             "cardutil.mciipm.IpmWriter (clean files)", "cardutil.iso8583.loads", "cardutil.cli.print_exception_details",
+             "cardutil.cli.mci_ipm_to_csv.cli_run and cardutil.cli.mideu.cli_run(extract) over SimFS (a third of the packaged-configuration cases)"],
     "stub": ["SimFile", "disk fault applier"],
     "reference": ["refiso.ref_read (REJECT = must-error set)", "refmodel.vbs_layout / block (re-framing)",
                   "control decode of the clean file (expected delivered records)"],
@@ -242,6 +243,30 @@ def judge(scn, want_text=True):
                 fails.append({"oracle": "C10.operator_text_names_the_failing_record",
                               "detail": f"print_exception_details does not say 'Error detected in record {j + 1}': {buf.getvalue()[:120]!r}",
                               "sig": "C10.operator_text_names_the_failing_record"})
+    # end to end through a command line tool: the operator sees 'Error detected in record k' and the CSV
+    # holds the k-1 records before it
+    tool = scn.get("tool")
+    if tool and out.kind == "liberr" and scn.get("config", "packaged") == "packaged":
+        fam = "ebcdic" if enc.startswith("cp") else "ascii"
+        tout = decode.run_tool(image, tool, blocked, fam, encoding=enc if tool == "mci_ipm_to_csv" else None)
+        info["tool"] = tout.kind
+        if tout.kind == "rc":
+            text = tout.stdout or ""
+            rows = None
+            if tout.value is not None and b"\r" not in tout.value:
+                # (a bare CR inside a cell is written unquoted by the tool and read back as a row break:
+                # rows are only counted when the CSV holds none - CSV fidelity is C20's ground)
+                import csv
+                try:
+                    rows = max(0, len(list(csv.reader(io.StringIO(tout.value.decode("utf-8", "replace"), newline="")))) - 1)
+                except csv.Error:
+                    rows = None  # a bare CR inside an unquoted cell: the CSV cannot be counted reliably (C20's ground)
+            if tout.rc != -1 or f"Error detected in record {j + 1}\n" not in text or (rows is not None and rows != j):
+                fails.append({"oracle": "C10.tool.reports_the_failing_record",
+                              "detail": f"{tool} returned {tout.rc!r}, CSV rows {rows} (expected {j}), operator text "
+                                        f"{'names' if f'Error detected in record {j + 1}' in text else 'does not name'} record {j + 1} "
+                                        f"(fault {fkind} in record {k})",
+                              "sig": f"C10.tool.reports_the_failing_record|{tool}"})
     if must and k is not None:
         if out.kind != "liberr":
             fails.append({"oracle": "C10.bad_record_is_reported",
@@ -284,6 +309,11 @@ def run_file_seed(seed_i, tier, part):
                 c[f"probe:no_site_for_{kind}"] += 1
                 continue
             scn = dict(base, rec_faults=pf[0], file_faults=pf[1])
+            if base["config"] == "packaged" and (k + len(kind)) % 3 == 0:
+                if enc in ("latin_1", "cp500") and (k + len(kind)) % 2 == 0:
+                    scn["tool"] = "mideu"
+                else:
+                    scn["tool"] = "mci_ipm_to_csv"
             fails, info = judge(scn)
             part["evals"] += 1
             part["events"] += 1
@@ -292,6 +322,8 @@ def run_file_seed(seed_i, tier, part):
             c[f"outcome:{kind}:{info['kind']}" + (":must" if info.get("must") else "")] += 1
             if k > 1 and info["kind"] == "liberr":
                 c["probe:error_raised_at_record_beyond_first"] += 1
+            if info.get("tool"):
+                c[f"probe:reported_through_tool_{scn['tool']}"] += 1
             part["sigs"].add(sig64("C10", fd, k, kind))
             h.update(f"{k},{kind},{info['kind']},{info['delivered']},{info['recno']};".encode())
             for v in fails:
